@@ -40,6 +40,7 @@ struct Tot {
     revalidated: u64,
     reval_execs: u64,
     rep_expansions: u64,
+    differ_by_violation: u64,
     configs: u64,
     fixpoints: u64,
     max_new_depth: usize,
@@ -153,8 +154,22 @@ fn search(f: &TFile, kind: Kind, variant: usize, max_depth: usize, t: &mut Tot) 
         t.reval_execs += cs.len() as u64;
         t.revalidated += 1;
         let mine = to_conts(&cs);
+        // every continuation is a real execution checked against the model: keep what it found
+        for (op, r) in &cs {
+            if let Err(fail) = r {
+                let mut h2 = h.clone();
+                h2.push(*op);
+                t.acc.record(f, kind, variant, &h2, fail.clone());
+            }
+        }
         let theirs = sts[*to].conts.as_ref().unwrap();
-        if &mine != theirs {
+        // A difference in which one side is a violation is reported as that violation (the hidden state
+        // that distinguishes the two histories is only observable through the defect); a difference
+        // between two passing observations means the key is too coarse: machinery error.
+        let benign = |a: &Cont, b: &Cont| a == b || matches!(a, Cont::Viol(..)) || matches!(b, Cont::Viol(..));
+        if mine.len() == theirs.len() && mine != *theirs && mine.iter().zip(theirs.iter()).all(|(a, b)| benign(a, b)) {
+            t.differ_by_violation += 1;
+        } else if &mine != theirs {
             let i = mine.iter().zip(theirs.iter()).position(|(a, b)| a != b);
             return Err(format!(
                 "key too coarse on {} {}: histories {:?} and {:?} reach the same key but continuation {:?} differs: {:?} vs {:?}",
@@ -217,6 +232,7 @@ pub fn run(name: &str, files: &[Arc<TFile>], max_depth: usize, rule: &str) -> Cu
                 g.revalidated += local.revalidated;
                 g.reval_execs += local.reval_execs;
                 g.rep_expansions += local.rep_expansions;
+                g.differ_by_violation += local.differ_by_violation;
                 g.configs += local.configs;
                 g.fixpoints += local.fixpoints;
                 g.max_new_depth = g.max_new_depth.max(local.max_new_depth);
@@ -259,6 +275,7 @@ pub fn run(name: &str, files: &[Arc<TFile>], max_depth: usize, rule: &str) -> Cu
     extra.insert("merged_arrivals_revalidated".into(), json!(t.revalidated));
     extra.insert("continuations_executed_for_revalidation".into(), json!(t.reval_execs));
     extra.insert("representatives_on_the_bound_expanded_for_revalidation".into(), json!(t.rep_expansions));
+    extra.insert("merged_arrivals_differing_from_their_representative_only_by_a_violation".into(), json!(t.differ_by_violation));
     c.extra = extra;
     c.exhaustive = true;
     c.samples = t.sample.into_iter().collect();
